@@ -1429,9 +1429,10 @@ impl<'a> Parser<'a> {
             return false;
         }
 
-        // Look ahead to find comma before ParenEnd
+        // Look ahead to find comma before the matching ParenEnd. The scan is not limited to
+        // MAX_LOOKAHEAD tokens: the first element of a tuple can be arbitrarily long.
         let mut depth = 0;
-        for i in 1..MAX_LOOKAHEAD {
+        for i in 1.. {
             match self.peek_ahead(i) {
                 Some(TokenKind::ParenBegin) => depth += 1,
                 Some(TokenKind::ParenEnd) => {
